@@ -10,6 +10,7 @@
 EXTENDS UnitSystems, Json, IOUtils, FiniteSets, SequencesExt
 
 Facts == ndJsonDeserialize(IOEnv.FACTS)
+CONSTANT BudgetCoherence
 
 VARIABLES l,          \* next event
           enumOf,     \* type |-> [kind, names, dims, std]
@@ -172,6 +173,19 @@ TImplCoherent == LET r == Facts[l]  T == r.type IN
                       <<implAff[<<T, r.unit>>].from = ImplCoh(r.system, dd, "from", 6), V("incoherent_implemented", T, r.system, r.unit \o " (from standard)")>> >>)
   /\ UNCHANGED <<enumOf, seenAbbr, abbrOf, unitAff, consistent, implAff>>
 
+(* C07 on the numbers the real conversion routines produce (float, double, long double): the value of one consistent unit in the standard  *)
+(* unit - and of one standard unit in it - against the product of the measured values of the system's base units, compared in exact      *)
+(* rational arithmetic; the distance in ulps is bounded by BudgetCoherence per constant involved (the unit's own and one per base-unit    *)
+(* factor): literal-suffix and precision slips that the exact layer cannot see (it reads the constants, not their types).                  *)
+AbsSum(d) == LET A(x) == IF x < 0 THEN -x ELSE x IN A(d[1]) + A(d[2]) + A(d[3]) + A(d[4]) + A(d[5]) + A(d[6]) + A(d[7])
+TCoherenceNum == LET r == Facts[l]  T == r.type IN
+  /\ IsEvent("CoherenceNum") /\ r.num \in {"f", "d", "l"}
+  /\ <<T, r.system>> \in DOMAIN consistent /\ consistent[<<T, r.system>>] = r.unit
+  /\ LET budget == BudgetCoherence * (1 + AbsSum(enumOf[T].dims)) IN
+     Judge(IF ~r.decidable THEN << <<FALSE, V("inconclusive_numeric_coherence", T, r.system, r.unit)>> >>
+           ELSE << <<r.ulps_to <= budget /\ r.ulps_from <= budget, V("incoherent_numeric", T, r.system, r.unit \o " (" \o r.num \o ")")>> >>)
+  /\ UNCHANGED <<enumOf, seenAbbr, abbrOf, unitAff, consistent, implAff>>
+
 TFinish == /\ l = Len(Facts) + 1 /\ l' = l + 1
            /\ LET keys == SetToSeq(DOMAIN unitAff) IN
               JsonSerialize(IOEnv.OUT, [bad |-> bad, events |-> Len(Facts),
@@ -189,7 +203,7 @@ TFinish == /\ l = Len(Facts) + 1 /\ l' = l + 1
                                                      ELSE One]]])
            /\ UNCHANGED <<enumOf, seenAbbr, abbrOf, unitAff, consistent, bad, implAff>>
 
-Next == TEnum \/ TEnumerator \/ TExtraKey \/ TSpelling \/ TConsistent \/ TRelated \/ TQType \/ TNonSpelling \/ TImplCoherent \/ TFinish
+Next == TEnum \/ TEnumerator \/ TExtraKey \/ TSpelling \/ TConsistent \/ TRelated \/ TQType \/ TNonSpelling \/ TImplCoherent \/ TCoherenceNum \/ TFinish
 Spec == Init /\ [][Next]_vars
 (* one state per consumed event, the initial state, and the finishing step *)
 Accepted == TLCGet("stats").diameter - 2 = Len(Facts)
